@@ -436,6 +436,17 @@ def trig_pairs(period, rng, n):
 def gen_cases(ctx):
     rng = ctx.rng
     cases = []
+    # ---- 0. witnesses of the defects repaired by the fix: commits (always present) ---------------
+    W = [("sin", "S", "method", [-1.0], [1.0]), ("cos", "S", "method", [6.0], [7.0]),
+         ("cos", "A", "method", [-4 * PI, 1.0], [-2 * PI, 2.0]), ("cos", "S", "vec", [1.0], [2.0]),
+         ("sin", "A", "method", [1.0, 0.0], [2.0, 7.0]), ("sin", "A2", "method", [1.0, 2.0, 0.1, 0.2], [2.0, 3.0, 0.2, 7.0]),
+         ("tan", "S", "method", [0.0], [PI]), ("tan", "A", "method", [0.25, 1.0], [0.25 + PI, 1.2]),
+         ("log", "A", "method", [1.0, 2.0], [2.0, 3.0])]
+    for fn, form, entry, lo, hi in W:
+        cases.append(mk("witness", fn, form, entry, lo, hi))
+    cases.append(mk("witness", "pow", "S", "method", [1.0], [2.0], -2, "int"))
+    cases.append(mk("witness", "pow", "S", "method", [-1.0], [2.0], -1, "int"))
+    cases.append(mk("witness", "pow", "S", "method", [1.375], [1.875], -2, "npint"))
     # ---- 1. sin / cos / tan ---------------------------------------------------------
     for fn in TRIG:
         period = PI if fn == "tan" else T2
